@@ -534,6 +534,9 @@ func (gen *generator) translateUseListOrderBBs() error {
 // to an equivalent IR basic block specific use-list order.
 func (gen *generator) irUseListOrderBB(old *ast.UseListOrderBB) (*ir.UseListOrderBB, error) {
 	// Function.
+	if err := checkIdentRef(old.Func().Text()); err != nil {
+		return nil, err
+	}
 	funcIdent := globalIdent(old.Func())
 	v, ok := gen.new.globals[funcIdent]
 	if !ok {
@@ -544,6 +547,9 @@ func (gen *generator) irUseListOrderBB(old *ast.UseListOrderBB) (*ir.UseListOrde
 		return nil, errors.Errorf("invalid function type of %q; expected *ir.Func, got %T", funcIdent.Ident(), v)
 	}
 	// Basic block.
+	if err := checkIdentRef(old.Block().Text()); err != nil {
+		return nil, err
+	}
 	blockIdent := localIdent(old.Block())
 	block, err := findBlock(f, blockIdent)
 	if err != nil {
